@@ -270,14 +270,40 @@ func (f *Factory) Add(a, b *Term) *Term {
 	if b.Op == "-" && len(b.Args) == 2 && b.Args[1] == a {
 		return b.Args[0]
 	}
-	// fold constants: (x + c1) + c2
-	if b.IsConst() && a.Op == "+" && a.Args[1].IsConst() {
-		return f.Add(a.Args[0], f.BigInt(new(big.Int).Add(a.Args[1].I, b.I)))
+	// n-ary canonical sum: flatten, fold constants, sort by id (so that sums built in
+	// different association/order are the same term)
+	var args []*Term
+	c := new(big.Int)
+	add := func(t *Term) {
+		if t.Op == "+" {
+			for _, x := range t.Args {
+				if x.IsConst() {
+					c.Add(c, x.I)
+				} else {
+					args = append(args, x)
+				}
+			}
+		} else if t.IsConst() {
+			c.Add(c, t.I)
+		} else {
+			args = append(args, t)
+		}
 	}
-	if a.IsConst() {
-		a, b = b, a
+	add(a)
+	add(b)
+	sort.Slice(args, func(i, j int) bool { return args[i].id < args[j].id })
+	if c.Sign() != 0 {
+		args = append(args, f.BigInt(c))
 	}
-	return f.mkI("+", addB(a.Lo, b.Lo), addB(a.Hi, b.Hi), a, b)
+	if len(args) == 1 {
+		return args[0]
+	}
+	var lo, hi *big.Int = big.NewInt(0), big.NewInt(0)
+	for _, x := range args {
+		lo = addB(lo, x.Lo)
+		hi = addB(hi, x.Hi)
+	}
+	return f.mkI("+", lo, hi, args...)
 }
 
 func (f *Factory) Sub(a, b *Term) *Term {
@@ -290,13 +316,17 @@ func (f *Factory) Sub(a, b *Term) *Term {
 	if a == b {
 		return f.Int(0)
 	}
-	// (x + y) - y -> x
+	// (x + y + ...) - y -> x + ...
 	if a.Op == "+" {
-		if a.Args[1] == b {
-			return a.Args[0]
-		}
-		if a.Args[0] == b {
-			return a.Args[1]
+		for i, x := range a.Args {
+			if x == b {
+				rest := append(append([]*Term{}, a.Args[:i]...), a.Args[i+1:]...)
+				acc := rest[0]
+				for _, r := range rest[1:] {
+					acc = f.Add(acc, r)
+				}
+				return acc
+			}
 		}
 	}
 	if b.IsConst() {
@@ -321,6 +351,9 @@ func (f *Factory) Mul(a, b *Term) *Term {
 		if b.I.Cmp(big.NewInt(1)) == 0 {
 			return a
 		}
+	}
+	if !a.IsConst() && !b.IsConst() && a.id > b.id {
+		a, b = b, a // commutative normal form
 	}
 	var lo, hi *big.Int
 	if a.Lo != nil && a.Hi != nil && b.Lo != nil && b.Hi != nil {
@@ -695,7 +728,10 @@ func Eval(t *Term, m map[string]*big.Int) (*big.Int, bool) {
 			}
 			r = v
 		case "+":
-			r = new(big.Int).Add(ev(x.Args[0]), ev(x.Args[1]))
+			r = new(big.Int)
+			for _, a := range x.Args {
+				r = new(big.Int).Add(r, ev(a))
+			}
 		case "-":
 			r = new(big.Int).Sub(ev(x.Args[0]), ev(x.Args[1]))
 		case "*":
@@ -768,3 +804,6 @@ func (f *Factory) Bounded(t *Term, lo, hi *big.Int) *Term {
 	}
 	return t
 }
+
+// ID exposes the interning id (stable within one factory).
+func (t *Term) ID() int { return t.id }
